@@ -70,3 +70,8 @@ let string_of_bits (l : bool list) : string =
   Buffer.contents b
 
 let join (f : 'a -> string) (l : 'a list) : string = String.concat " " (Stdlib.List.map f l)
+
+(* small unary numbers (bit widths of gadget requests) *)
+let nat_of_int (n : int) : Datatypes.nat =
+  let rec go k acc = if k <= 0 then acc else go (k - 1) (Datatypes.S acc) in
+  go n Datatypes.O
